@@ -462,6 +462,70 @@ theorem process_ev {s : State} (hd : UidsDistinct s) (u : Nat) (h : Hdr) : EvS s
             · have h1 := logTop_ev cfg 10 hd
               exact h1.trans (fwdTop_ev cfg _ _ (h1.distinct hd))
 
+theorem foldl_fwd_ev : ∀ (fs : List Frame) {s : State}, UidsDistinct s → EvS s (fs.foldl (fwdTop cfg) s)
+  | [], s, _ => EvS.refl s
+  | f :: rest, s, hd => by
+    simp only [List.foldl_cons]
+    have h1 := fwdTop_ev cfg s f hd
+    exact h1.trans (foldl_fwd_ev rest (h1.distinct hd))
+
+theorem infoAll_ev : ∀ (ms : List Module) {s : State}, UidsDistinct s → EvS s (infoAll cfg ms s)
+  | [], s, _ => EvS.refl s
+  | m :: rest, s, hd => by
+    unfold infoAll
+    have h1 := infoOf_ev cfg hd ((s.find m.uid).getD m)
+    exact h1.trans (infoAll_ev rest (h1.distinct hd))
+
+theorem sendTiming_ev {s : State} (hd : UidsDistinct s) : EvS s (sendTiming cfg s) := by
+  unfold sendTiming
+  dsimp only
+  have h0 : EvS s ({ s with counts := [], inTraffic := true } : State) := evS_mods rfl rfl rfl rfl rfl
+  have h1 := fwdTop_ev cfg _ (mgrFrame cfg.mtTiming 0 cfg.szTiming (Body.timing (timingEntries cfg s.counts) (pidEntries s.mods)))
+    (h0.distinct hd)
+  exact (h0.trans h1).trans (evS_mods rfl rfl rfl rfl rfl)
+
+theorem sendTraffic_ev {s : State} (hd : UidsDistinct s) : EvS s (sendTraffic cfg s) := by
+  unfold sendTraffic
+  dsimp only
+  have h0 : EvS s ({ s with inTraffic := true } : State) := evS_mods rfl rfl rfl rfl rfl
+  have h1 := logTop_ev cfg 10 (h0.distinct hd)
+  generalize logAt cfg (fwdTop cfg) 10 ({ s with inTraffic := true } : State) = s1 at h1
+  have h2 := foldl_fwd_ev cfg (trafficFrames cfg s1.trafficSeq s1.traffic) ((h0.trans h1).distinct hd)
+  exact ((h0.trans h1).trans h2).trans (evS_mods rfl rfl rfl rfl rfl)
+
+theorem sendActive_ev {s : State} (hd : UidsDistinct s) : EvS s (sendActive cfg s) := by
+  unfold sendActive
+  dsimp only
+  have h1 := logTop_ev cfg 10 hd
+  generalize logAt cfg (fwdTop cfg) 10 s = s1 at h1
+  have d1 := h1.distinct hd
+  have h2 := infoAll_ev cfg s1.mods d1
+  have h3 := fwdTop_ev cfg _ (mgrFrame cfg.mtActive 0 cfg.szActive
+      (Body.active (((infoAll cfg s1.mods s1).mods.length : Int) - 1) (trimZeros ((s1.mods.take cfg.maxActive).map (·.modId)))
+        (trimZeros ((s1.mods.take cfg.maxActive).map (·.pid))))) (h2.distinct d1)
+  exact ((h1.trans h2).trans h3).trans (evS_mods rfl rfl rfl rfl rfl)
+
+theorem ticks_ev {s : State} (hd : UidsDistinct s) : EvS s (ticks cfg s) := by
+  unfold ticks
+  dsimp only
+  have h1 : EvS s (if (cfg.timing && decide (s.now - s.tTiming > 900)) = true then
+      { sendTiming cfg s with tTiming := s.now } else s) := by
+    split
+    · exact (sendTiming_ev cfg hd).trans (evS_mods rfl rfl rfl rfl rfl)
+    · exact EvS.refl s
+  generalize (if (cfg.timing && decide (s.now - s.tTiming > 900)) = true then
+      { sendTiming cfg s with tTiming := s.now } else s) = s1 at h1 ⊢
+  have d1 := h1.distinct hd
+  have h2 : EvS s1 (if s1.now - s1.tTraffic > 1000 then sendTraffic cfg s1 else s1) := by
+    split
+    · exact sendTraffic_ev cfg d1
+    · exact EvS.refl s1
+  generalize (if s1.now - s1.tTraffic > 1000 then sendTraffic cfg s1 else s1) = s2 at h2 ⊢
+  refine (h1.trans h2).trans ?_
+  split
+  · exact sendActive_ev cfg (h2.distinct d1)
+  · exact EvS.refl s2
+
 end top
 
 end Pyrtma.Mgr
